@@ -80,6 +80,36 @@ pub fn pressure_rom(op: u8) -> crate::rom::RomImage {
     rom
 }
 
+/// Cache pressure with bank switching and revisits: every bank 1..7 holds a run of
+/// a different one-byte instruction; each iteration selects a bank (2,3,..,7,1),
+/// enters the run at HL (which advances after bank 1) and then at the fixed
+/// address 0x4000 again. The translation area is recycled every few iterations,
+/// with different banks mapped at that moment, and addresses translated before a
+/// restart are executed again after it - under the same and under other banks.
+pub fn pressure_rom2() -> crate::rom::RomImage {
+    let mut rom = crate::rom::RomImage::new(0x03, 0x02, 0x03, 0x00);
+    let ops = [0x3cu8, 0x0c, 0x14, 0x1c, 0x3d, 0x0d, 0x15];
+    for bank in 1..8usize {
+        for a in 0..0x3fff {
+            rom.bytes[bank * 0x4000 + a] = ops[bank - 1];
+        }
+        rom.bytes[bank * 0x4000 + 0x3fff] = 0xc9;
+    }
+    let main: [u8; 46] = [
+        0x31, 0xf0, 0xdf, 0x21, 0x00, 0x40, 0x06, 0x02, // LD SP; LD HL,0x4000; LD B,2
+        0x78, 0xea, 0x00, 0x20, 0xcd, 0x00, 0x02, 0xcd, 0x00, 0x40, // loop: bank := B; CALL (JP HL); CALL 0x4000
+        0x78, 0xfe, 0x01, 0x20, 0x05, 0x23, 0x06, 0x02, 0x18, 0x08, // B == 1 ? INC HL, B := 2
+        0x04, 0x78, 0xfe, 0x08, 0x20, 0x02, 0x06, 0x01, // else INC B, 8 -> 1
+        0x3e, 0x41, 0xe0, 0x01, 0x3e, 0x81, 0xe0, 0x02, // transmit 'A'
+        0x18, 0xda, // JR loop
+    ];
+    rom.bytes[0x150..0x150 + main.len()].copy_from_slice(&main);
+    rom.bytes[0x200] = 0xe9;
+    rom.bytes[0x100..0x104].copy_from_slice(&[0x00, 0xc3, 0x50, 0x01]);
+    rom.fix_checksum();
+    rom
+}
+
 pub fn run_pair_rom(rom: &crate::rom::RomImage, steps: u32, st: &mut RunStats) -> CaseResult {
     let mut mj = j::M::new(rom);
     let mut mi = i::M::new(rom);
@@ -232,7 +262,8 @@ fn run(rec: &mut Rec) {
         return;
     }
     // cache-pressure family: the translation area fills up and is recycled
-    let ops: &[u8] = if rec.ctx.tier == Tier::Thorough { &[0x3c, 0x27, 0x00, 0x87, 0x07, 0x04] } else { &[0x3c, 0x27] };
+    // (0xff stands for the bank-switching, revisiting variant)
+    let ops: &[u8] = if rec.ctx.tier == Tier::Thorough { &[0xff, 0x3c, 0x27, 0x00, 0x87, 0x07, 0x04] } else { &[0xff, 0x3c, 0x27] };
     for (k, op) in ops.iter().enumerate() {
         let workers = if rec.ctx.nshards >= 4 { rec.ctx.nshards / 2 } else { rec.ctx.nshards };
         let my = if rec.ctx.nshards >= 4 { rec.ctx.shard / 2 } else { rec.ctx.shard };
@@ -265,7 +296,8 @@ fn run_pressure(rec: &mut Rec, op: u8, steps: u32) {
     rec.eval(1);
     rec.class("cache-pressure", 1);
     let mut st = new_stats();
-    if let Err(f) = run_pair_rom(&pressure_rom(op), steps, &mut st) {
+    let rom = if op == 0xff { pressure_rom2() } else { pressure_rom(op) };
+    if let Err(f) = run_pair_rom(&rom, steps, &mut st) {
         rec.violation(&format!("pressure-{}", f.sig), case, f.detail);
     }
 }
